@@ -460,6 +460,7 @@ func (fe *FuncEnc) doBuiltin(f *Frame, x *ssa.Call, b *ssa.Builtin, st *State, p
 		fe.setVal(x, slCap(fe.val(c.Args[0])))
 	case "delete":
 		mt := c.Args[0].Type().Underlying().(*types.Map)
+		fe.globalMapWrite(f, c.Args[0], path, x.Pos())
 		fe.mapDelete(st, mt, fe.val(c.Args[0]), fe.val(c.Args[1]))
 	case "append":
 		fe.doAppend(f, x, st, path)
